@@ -134,6 +134,12 @@ func yield() {
 // then the lifecycle action happens on the idle established connection.
 const posAfterLoss = -1
 
+// posAfterRebind: after a loss-free handshake with connection IDs a fresh record of the peer reaches the
+// endpoint from a NEW source address (NAT rebinding): the endpoint starts, or - when the amplification
+// budget of the new address does not cover a path_challenge towards a long peer connection ID - refuses to
+// start a return-routability check. Then the lifecycle action happens.
+const posAfterRebind = -2
+
 func c16Run(t *testing.T, p *world.PKI, v checks.Variant, clientSide bool, pos int, act action, seed uint64, m world.Mask) run.Outcome {
 	var o run.Outcome
 	var viol []string
@@ -397,6 +403,45 @@ func c16Run(t *testing.T, p *world.PKI, v checks.Variant, clientSide bool, pos i
 			w.Sleep(1500 * time.Millisecond)
 			n.Flush()
 			stage = "established-after-loss"
+		} else if pos == posAfterRebind {
+			_ = n.Pump(20*time.Second, pr.BothDone)
+			if !pr.BothOK() {
+				o.Skip = true
+				pr.CloseAll()
+				return
+			}
+			n.Flush()
+			yw := startWrite(w, y, "r")
+			w.Settle()
+			moved := 0
+			for _, d := range w.InFlight() {
+				if d.Src == y.Addr {
+					w.Take(d)
+					w.Push(world.Addr("10.0.0.88:8888"), x.Addr, d.Data)
+					moved++
+				}
+			}
+			w.Settle()
+			if !yw.OK() || moved == 0 {
+				bad("harness: no record of the peer to re-source (write %v)", yw)
+			}
+			// whatever the endpoint sends to the new address goes nowhere; the rest is delivered
+			for _, d := range w.InFlight() {
+				if d.Dst != x.Addr && d.Dst != y.Addr {
+					w.Take(d)
+				}
+			}
+			n.Flush()
+			// the re-sourced record is genuine application data: the application takes it
+			_ = x.Conn.SetReadDeadline(time.Now().Add(10 * time.Millisecond))
+			dr := startRead(w, x)
+			w.Sleep(11 * time.Millisecond)
+			w.Settle()
+			if !dr.Done() {
+				bad("the Read that takes the re-sourced record did not return at its deadline")
+			}
+			_ = x.Conn.SetReadDeadline(time.Time{})
+			stage = "established-after-rebind"
 		} else if steps < pos {
 			if !established {
 				// the handshake cannot progress further without time passing and pos not reached: pump to completion
@@ -899,6 +944,25 @@ func TestC16(t *testing.T) {
 					cases = append(cases, run.Case{ID: fmt.Sprintf("%s/%s/afterloss[%s]/%s", v.Name, sideName(clientSide), m, act),
 						Run: func(t *testing.T) run.Outcome { return c16Run(t, p, v, clientSide, posAfterLoss, act, env.Seed+1, m) }})
 				}
+			}
+		}
+	}
+	// lifecycle after a NAT rebinding of the peer: symmetric 4-byte connection IDs (a return-routability check
+	// starts) and a 200-byte peer connection ID against a 1-byte own one (the check is refused: the
+	// path_challenge would exceed three times what the new address has sent)
+	cidPSK := func(c, s int) checks.Variant {
+		k := []byte{9, 9, 9}
+		su := []dtls.CipherSuiteID{dtls.TLS_PSK_WITH_AES_128_GCM_SHA256}
+		return checks.Variant{Name: fmt.Sprintf("12-psk-cid%d-%d", c, s), C: world.Cfg{CIDLen: c, Cred: "psk", PSK: k, Suites: su}, S: world.Cfg{CIDLen: s, Cred: "psk", PSK: k, Suites: su}}
+	}
+	for _, v := range []checks.Variant{cidPSK(4, 4), cidPSK(200, 1), cidPSK(1, 200)} {
+		for _, clientSide := range []bool{true, false} {
+			for _, act := range lossActs {
+				v, clientSide, act := v, clientSide, act
+				cases = append(cases, run.Case{ID: fmt.Sprintf("%s/%s/afterrebind/%s", v.Name, sideName(clientSide), act),
+					Run: func(t *testing.T) run.Outcome {
+						return c16Run(t, p, v, clientSide, posAfterRebind, act, env.Seed+1, nil)
+					}})
 			}
 		}
 	}
